@@ -513,7 +513,12 @@ pub fn cmd_check(args: &Args) -> i32 {
     if let Some(r) = args.get("runs").and_then(|s| s.parse::<u64>().ok()).or_else(|| std::env::var("VERIF_RUNS").ok().and_then(|s| s.parse().ok())) {
         runs = r;
     }
-    println!("check {} tier={} seed={} runs={} workers={}", prop, tier, seed, runs, workers);
+    // secondary pass on another build profile: a fraction of the same runs
+    let runs_div = args.num("runs-div", 1).max(1);
+    runs = (runs / runs_div).max(1);
+    let merge_evidence = args.get("merge-evidence").is_some();
+    let profile = if cfg!(debug_assertions) { "checked" } else { "plain" };
+    println!("check {} tier={} seed={} runs={} workers={} build={}", prop, tier, seed, runs, workers, profile);
     let pool = run_pool(&prop, &tier, seed, workers, runs, false, "main");
     let distinct = count_distinct_hashes("main", workers);
     if !pool.harness_errors.is_empty() {
@@ -591,12 +596,13 @@ pub fn cmd_check(args: &Args) -> i32 {
     for fnd in &distinct_found {
         let sh = shrink::shrink(&fnd.trace, &fnd.failure, shrink_budget, 3000);
         let sig = sh.failure.sig();
-        let path = format!("{}/{}-{}-{}.json", replay_dir, prop, seed, hash_str(&format!("{}{}", sig, sh.trace.to_json().to_string())));
+        let path = format!("{}/{}-{}-{}{}.json", replay_dir, prop, seed, if profile == "plain" { "plain-" } else { "" }, hash_str(&format!("{}{}", sig, sh.trace.to_json().to_string())));
         let file = J::obj()
             .set("property", J::s(&prop))
             .set("seed", J::u(seed))
             .set("run", J::u(fnd.run))
             .set("tier", J::s(&tier))
+            .set("profile", J::s(profile))
             .set("expect_sig", J::s(&sig))
             .set("failure", failure_json(&sh.failure))
             .set("original_steps", J::u(fnd.trace.steps.len() as u64))
@@ -742,6 +748,42 @@ pub fn cmd_check(args: &Args) -> i32 {
     let ev_dir = format!("{}/evidence", verif_root());
     let _ = std::fs::create_dir_all(&ev_dir);
     let ev_path = format!("{}/{}.json", ev_dir, prop);
+    let ev = if merge_evidence {
+        // secondary pass (other build profile): fold a summary into the evidence of the primary pass
+        match std::fs::read_to_string(&ev_path).ok().and_then(|t| json::parse(&t).ok()) {
+            Some(mut main) => {
+                let g = |k: &str| ev.get("coverage").and_then(|c| c.get(k)).cloned().unwrap_or(J::Null);
+                let summary = J::obj()
+                    .set("build_profile", g("build_profile"))
+                    .set("what", J::s("the first 1/n of the same seeded runs executed once more on the plain release build (no debug assertions, no overflow checks, no unsafe-precondition checks: what users ship), same oracles"))
+                    .set("runs", g("runs"))
+                    .set("evaluations", g("evaluations"))
+                    .set("oracle_evaluations", g("oracle_evaluations"))
+                    .set("inconclusive_runs", g("inconclusive_runs"))
+                    .set("worker_crashes", g("worker_crashes"))
+                    .set("violations", J::u(violations))
+                    .set("violation_records", g("violation_records"))
+                    .set("wall_s", J::Num((wall * 1000.0).round() / 1000.0));
+                let prev_v = main.get("violations").and_then(|v| v.as_i64()).unwrap_or(0) as u64;
+                let prev_w = match main.get("wall_s") {
+                    Some(J::Num(f)) => *f,
+                    Some(J::Int(i)) => *i as f64,
+                    _ => 0.0,
+                };
+                if let Some(J::Obj(items)) = main.get("coverage").cloned().as_ref() {
+                    let mut cov = J::Obj(items.clone());
+                    cov.put("plain_build_pass", summary);
+                    main.put("coverage", cov);
+                }
+                main.put("violations", J::u(prev_v + violations));
+                main.put("wall_s", J::Num(((prev_w + wall) * 1000.0).round() / 1000.0));
+                main
+            }
+            None => ev,
+        }
+    } else {
+        ev
+    };
     if let Err(e) = std::fs::write(&ev_path, ev.pretty()) {
         eprintln!("HARNESS: cannot write {}: {}", ev_path, e);
         return 2;
